@@ -66,6 +66,21 @@ CORPUS = [
     (dict(sub_item=False, sub_hist=False, sub_tok=False, max_age=100),
      [["mkcoll", 0], ["put", 0, 0, "a", 0], ["sync", 0, None], ["put", 0, 0, "a", 1], ["sync", 0, ["ws", 0]], ["sync", 0, ["mal", "garbage"]],
       ["sync", 0, ["mal", "   "]], ["sync", 0, 9], ["ptok", 0], ["sync", 0, None]]),
+    # server mounted below a base prefix (SCRIPT_NAME / X-Script-Name): changed AND removed hrefs carry it
+    (dict(sub_item=False, sub_hist=False, sub_tok=False, max_age=100, prefix="script"),
+     [["mkcoll", 0], ["mkcoll", 1], ["put", 0, 0, "a", 0], ["put", 0, 1, "b", 0], ["sync", 0, None], ["del", 0, 1], ["put", 0, 0, "a", 1],
+      ["sync", 0, 0], ["move", 0, 0, 1, 2], ["sync", 0, 0], ["sync", 1, None], ["ptok", 0]]),
+    (dict(sub_item=False, sub_hist=True, sub_tok=True, max_age=100, prefix="xscript"),
+     [["mkcoll", 0], ["put", 0, 0, "a", 0], ["put", 0, 2, "c", 0], ["sync", 0, None], ["replace", 0, [["a", 1]]], ["sync", 0, 0],
+      ["sync", 0, ["last"]]]),
+    # the write of a new token file fails (ENOSPC before / in the middle of the pickle): no file may keep the token's
+    # name; the token handed out afterwards must work
+    (dict(sub_item=False, sub_hist=False, sub_tok=False, max_age=100),
+     [["mkcoll", 0], ["put", 0, 0, "a", 0], ["syncfail", 0, None, "trunc"], ["sync", 0, None], ["put", 0, 1, "b", 0], ["sync", 0, ["last"]],
+      ["sync", 0, ["last"]]]),
+    (dict(sub_item=False, sub_hist=False, sub_tok=True, max_age=100, prefix="script"),
+     [["mkcoll", 0], ["sync", 0, None], ["put", 0, 0, "a", 0], ["syncfail", 0, 0, "enospc"], ["ptok", 0], ["del", 0, 0], ["sync", 0, ["last"]],
+      ["sync", 0, 0], ["syncfail", 0, ["last"], "trunc"], ["syncfail", 0, ["mal", "garbage"], "trunc"]]),
 ]
 
 
@@ -84,8 +99,10 @@ def _work(job):
     modified = False
     for op, acc, res, _ in trace:
         k = op[0]
-        if k in ("sync", "ptok"):
+        if k in ("sync", "ptok", "syncfail"):
             key = "%s:%s" % (k, res[0] if res else "-")
+            if k == "syncfail":
+                k = "sync"
             if k == "sync" and res and res[0] == "delta" and op[2] is not None and not (isinstance(op[2], list) and op[2][0] == "mal"):
                 key += ":empty" if not res[2] else ":changes"
                 if res[2] and modified:
@@ -122,7 +139,8 @@ def run_jobs(jobs, procs=14):
 
 def random_cfg(rng):
     return dict(sub_item=rng.random() < 0.3, sub_hist=rng.random() < 0.45, sub_tok=rng.random() < 0.45,
-                max_age=rng.choice([100, 100, 100, 7, 7, 1, 0]))
+                max_age=rng.choice([100, 100, 100, 7, 7, 1, 0]),
+                prefix=rng.choice([None, None, "script", "xscript"]))     # server mounted below /radicale
 
 
 # small-scope alphabet: collection 0, hrefs a/b, contents 0/1
